@@ -1,6 +1,7 @@
 package verifharness
 
 import (
+	"bytes"
 	"encoding/binary"
 	"encoding/json"
 	"fmt"
@@ -311,6 +312,40 @@ func worldCodec(w *World) {
 			}
 			monitor(c)
 			c.Drop()
+		case 7: // nothing is read past the first frame: what follows it in the same write belongs to the next layer
+			w.Check("C17.first-frame-not-overread")
+			conn, _ := rawConn()
+			if conn == nil {
+				continue
+			}
+			var tail bytes.Buffer
+			cw := newCtlCipher(&bufOnlyConn{Conn: conn, w: &tail}, token)
+			pts := time.Now().Unix()
+			writeMsg(cw, tPing, M{"privilege_key": authKey(token, pts), "timestamp": pts}) // IV + encrypted Ping, into the buffer
+			all := append(loginFrame(), tail.Bytes()...)
+			conn.Write(all) // one write: Login, then the beginning of the encrypted control stream
+			conn.SetReadDeadline(time.Now().Add(15 * time.Second))
+			typ, body, err := readFrame(conn)
+			rr := M{}
+			json.Unmarshal(body, &rr)
+			if err != nil || typ != tLoginResp || mstr(rr, "error") != "" {
+				viol("framing", "pipelined-login-refused", "a login followed at once by the control stream was not accepted: %v %q %s", err, typ, body)
+				conn.Close()
+				continue
+			}
+			cr := newCtlCipher(conn, token)
+			got := false
+			for k := 0; k < 6 && !got; k++ { // the server may send ReqWorkConn first
+				t2, _, err := readFrame(cr)
+				if err != nil {
+					break
+				}
+				got = t2 == tPong
+			}
+			if !got {
+				viol("framing", "bytes-after-first-frame-consumed", "Login and the first %d bytes of the control stream were written together; the login was accepted but the Ping that followed it was never answered: the server read past the first frame", tail.Len())
+			}
+			conn.Close()
 		default:
 			checkHonest("mid")
 		}
@@ -338,3 +373,11 @@ func containsStr(s, sub string) bool {
 		return false
 	})())
 }
+
+// bufOnlyConn diverts writes into a buffer (reads still come from the connection).
+type bufOnlyConn struct {
+	net.Conn
+	w *bytes.Buffer
+}
+
+func (b *bufOnlyConn) Write(p []byte) (int, error) { return b.w.Write(p) }
